@@ -116,6 +116,7 @@ func runC08(c *Check, a *Analysis) {
 	// a stream context that is recycled while the stream table still points at it is dereferenced at teardown
 	ruleStreamCtxStable(c, a, "R-STREAM-CTX-STABLE")
 	ruleFixedPoolSizes(c, a, "R-FIXED-POOL-SIZE")
+	ruleQuiesceBeforeClose(c, a, "R-QUIESCE-BEFORE-CLOSE")
 
 	// ---- R-PANIC-BYTES
 	c.Rule("R-PANIC-BYTES", "every function that passes the raw frame bytes (Context.data) to a decoder has a dominating deferred recover() barrier that sets its error result", 2)
